@@ -63,6 +63,7 @@ var typeRoles = []typeRole{
 	{"pkg/external/db", "tx", []string{"Commit", "Rollback"}},
 	{"internal/app", "app", []string{"Run", "Stop"}},
 	{"internal/repository/content", "bufWriter", []string{"Write"}},
+	{".", "tx", []string{"Set", "SetReader", "Get", "GetKeys", "Delete", "Create"}},
 }
 
 var funcRoles = []funcRole{
